@@ -33,6 +33,30 @@ fn pos_amounts(s: &Scen, acct: &anchor_lang::prelude::Pubkey, bank: &anchor_lang
 }
 
 pub fn run(rng: &mut Rng, n: usize, rep: &mut Report) {
+    run_with(rng, n, rep, &mut None)
+}
+
+/// family `liqix`: one line per liquidation the REAL instruction accepted in the worlds of this monitor (see Ix.lean)
+pub fn gen(rng: &mut Rng, n: usize, out: &mut Vec<String>) {
+    let mut guard = 0;
+    while out.len() < n && guard < 200 {
+        guard += 1;
+        let mut scratch = Report::default();
+        let mut part: Option<Vec<String>> = Some(vec![]);
+        run_with(rng, 60, &mut scratch, &mut part);
+        out.extend(part.unwrap());
+    }
+    out.truncate(n);
+}
+
+fn pos_line(w: &crate::world::World, acct: &anchor_lang::prelude::Pubkey, bank: &anchor_lang::prelude::Pubkey) -> (bool, String) {
+    match w.marginfi_account(acct).lending_account.balances.iter().find(|x| x.is_active() && x.bank_pk == *bank) {
+        Some(x) => (true, crate::fam_bank::Bal::from_balance(x).line()),
+        None => (false, "0 0 0 0 0 0".to_string()),
+    }
+}
+
+pub fn run_with(rng: &mut Rng, n: usize, rep: &mut Report, lines: &mut Option<Vec<String>>) {
     let mut done = 0;
     while done < n {
         let mut s = Scen::build(rng);
@@ -129,6 +153,28 @@ pub fn run(rng: &mut Rng, n: usize, rep: &mut Report) {
             bk.config.fixed_price = I80F48::from_num(pa).into();
             s.w.set_bank(&key, &bk);
         }
+        // ---- a fifth of the worlds whose collateral mint does not have 9 decimals: the collateral bank is a DRIFT-backed
+        //      bank (state edit of the tag on the bank and on the open positions, as drift_deposit would have left them):
+        //      its balances are Drift's scaled balances, which always carry 9 decimals whatever the mint says
+        let drift = d0 != 9 && !stress && rng.chance(1, 5);
+        if drift {
+            let key = s.banks[0].bank;
+            let mut bk = s.w.bank(&key);
+            bk.config.asset_tag = marginfi_type_crate::constants::ASSET_TAG_DRIFT;
+            s.w.set_bank(&key, &bk);
+            for u in 0..s.users.len() {
+                let ak = s.users[u].acct;
+                let mut a = s.w.marginfi_account(&ak);
+                for bal in a.lending_account.balances.iter_mut() {
+                    if bal.is_active() && bal.bank_pk == key {
+                        bal.bank_asset_tag = marginfi_type_crate::constants::ASSET_TAG_DRIFT;
+                    }
+                }
+                s.w.set_marginfi_account(&ak, &a);
+            }
+            rep.bump("drift_collateral_world");
+        }
+        let d0 = if drift { 9 } else { d0 };
         // bring both banks up to date so that the pre-state measured here is the one the handler sees
         let _ = s.w.exec(&ix::accrue(&s.banks[0]));
         let _ = s.w.exec(&ix::accrue(&s.banks[1]));
@@ -205,7 +251,40 @@ pub fn run(rng: &mut Rng, n: usize, rep: &mut Report) {
                 s.w.remaining_for(&liquidator, &[ab.bank, lb.bank]), s.w.remaining_for(&victim, &[]),
             );
             let before = s.w.accounts.clone();
+            // pre-state for the liqix family line
+            let head = if lines.is_some() {
+                let g = s.w.group(&s.group);
+                let ira = crate::fam_curve::Ir::from_real(&bka0.config.interest_rate_config, &g);
+                let irl = crate::fam_curve::Ir::from_real(&bkl0.config.interest_rate_config, &g);
+                let (h1, p1) = pos_line(&s.w, &liquidator, &lb.bank);
+                let (_, p2) = pos_line(&s.w, &victim, &ab.bank);
+                let (h3, p3) = pos_line(&s.w, &liquidator, &ab.bank);
+                let (_, p4) = pos_line(&s.w, &victim, &lb.bank);
+                Some(format!(
+                    "ix.liq {} {} {} {} {} {} {} {} {} {} {} {} {} {} {} {}",
+                    crate::fam_bank::B::from_bank(&bka0).line(), bka0.last_update, ira.line(),
+                    crate::fam_bank::B::from_bank(&bkl0).line(), bkl0.last_update, irl.line(),
+                    h1 as u8, p1, p2, h3 as u8, p3, p4,
+                    s.w.clock_ts, seize, bits(bka0.config.fixed_price), bits(bkl0.config.fixed_price)
+                ))
+            } else {
+                None
+            };
+            let ins0 = s.w.token_amount(&lb.liquidity_vault);
             let r = s.w.exec(&ixn);
+            if let (Some(head), Ok(()), Some(v)) = (&head, &r, lines.as_mut()) {
+                let (a1, l1) = (s.w.bank(&ab.bank), s.w.bank(&lb.bank));
+                let closed = |x: (bool, String)| if x.0 { x.1 } else { "0 0 0 0 0 0".to_string() };
+                v.push(format!(
+                    "{} => ok {} {} {} {} {} {} {} {} {}",
+                    head,
+                    crate::fam_bank::B::from_bank(&a1).line(), a1.last_update,
+                    crate::fam_bank::B::from_bank(&l1).line(), l1.last_update,
+                    closed(pos_line(&s.w, &liquidator, &lb.bank)), closed(pos_line(&s.w, &victim, &ab.bank)),
+                    closed(pos_line(&s.w, &liquidator, &ab.bank)), closed(pos_line(&s.w, &victim, &lb.bank)),
+                    ins0 - s.w.token_amount(&lb.liquidity_vault)
+                ));
+            }
             rep.bump("cases");
             done += 1;
             match r {
